@@ -43,6 +43,10 @@ import typing
 def typed(v, t, path, errs):
     """C03 oracle on the real object graph against the resolved annotations."""
     NoneT = type(None)
+    if isinstance(t, typing.ForwardRef):       # module-level alias objects keep ForwardRefs
+        t = T.ALL_TYPES_MAP.get(t.__forward_arg__, t)
+    if isinstance(t, str):
+        t = T.ALL_TYPES_MAP.get(t, t)
     o = typing.get_origin(t)
     if t is typing.Any:
         return True
